@@ -15,7 +15,7 @@ U32 = 4294967295
 U64 = 18446744073709551615
 PERMS3 = list(itertools.permutations(range(3)))
 PERMS4 = list(itertools.permutations(range(4)))
-LABELS = ['up', 'down', 'testing', 'a-b', 'x1']
+LABELS = ['up', 'down', 'class', 'a-b', 'x1']        # plain, Python keyword, hyphenated
 
 
 def pick(table, k):
@@ -313,19 +313,21 @@ def defval_number(depth: int, kind: int, perm: int, split: bool, v: int) -> bool
     if 'default' not in x:
         return False
     dv = x['default']
-    if 'default' in dv:
-        dv = dv['default']
+    if 'default' not in dv:
+        return False                # every notation is reported as {'default': {basetype, format, value}}
+    dv = dv['default']
     return dv['basetype'] == BASETYPE[kind] and dv['value'] == v and dv['format'] == 'decimal'
 
 
 STRS = ['""', '"a"', '"a b"', '"\'"']
 HEXS = [("''H", ''), ("'00'H", '00'), ("'0aFF'h", '0aFF')]
-BINS = [("''B", ''), ("'0'b", '0'), ("'00001010'B", 'a'), ("'1'B", '1')]
+# expected hex digits: one per four bits, leading zeros kept (the octets the literal denotes), written down here - not derived from the code
+BINS = [("''B", ''), ("'0'b", '0'), ("'00001010'B", '0a'), ("'1'B", '1'), ("'0000000011111111'B", '00ff')]
 
 
 def defval_other(depth: int, kind: int, perm: int, split: bool, notation: int, i: int) -> bool:
     """
-    requires: 0 <= depth <= 3 and 0 <= perm < 24 and 0 <= kind <= 4 and 0 <= notation <= 5 and 0 <= i <= 3
+    requires: 0 <= depth <= 3 and 0 <= perm < 24 and 0 <= kind <= 4 and 0 <= notation <= 5 and 0 <= i <= 4
     requires: (notation <= 2 and kind == 1) or (notation == 3 and kind == 2) or (notation == 4 and kind == 3) or (notation == 5 and kind == 4) or (1 <= notation <= 2 and kind == 0)
     """
     if notation == 0:
@@ -364,8 +366,9 @@ def defval_other(depth: int, kind: int, perm: int, split: bool, notation: int, i
     if 'default' not in x:
         return False
     dv = x['default']
-    if 'default' in dv:
-        dv = dv['default']
+    if 'default' not in dv:
+        return False                # every notation is reported as {'default': {basetype, format, value}}
+    dv = dv['default']
     if notation == 4:
         if dv['basetype'] != 'Bits' or dv['format'] != 'bits':
             return False
